@@ -1068,6 +1068,20 @@ class Interp:
             ci[2].append(self.ev(args[0], env))
             self.maybe_finish_comma(ci, e)
             return ci
+        if op in ("==", "!=") and len(args) == 1:
+            # whole-array comparison: an opaque proposition about the two arrays' current contents
+            a = self.load(objr) if isinstance(objr, Ref) and objr.kind in ("var", "field") else objr
+            b = self.ev(args[0], env)
+            def tagof(v):
+                if isinstance(v, Container):
+                    return S("array:" + v.tag())
+                if isinstance(v, Vec):
+                    return S(repr(norm_atoms(v)))
+                if isinstance(v, sp.Basic):
+                    return v
+                raise Unsupported("comparison of %s" % type(v).__name__)
+            r = sp.Eq(tagof(a), tagof(b), evaluate=False)
+            return r if op == "==" else sp.Not(r)
         if op in ("()", "[]"):
             return self.index(objr, [self.ev(a, env) for a in args], e)
         obj = objr
